@@ -24,6 +24,10 @@ STR_CHARS = "abcXYZ 019,.:;!?()[]+-*/_<>=&%$@^~|{}'`"
 
 def gen_data(rng, nmax=5):
     out = []
+    if rng.random() < 0.12:
+        # a large zeroed pad first: the variables behind it have addresses whose low 12 bits cross 0x800 / 0x1000
+        # (lui/addi carry in la, load-by-name, store-by-name); .zero costs nothing in the image
+        out.append({"name": "zpad_", "type": "zero", "n": rng.choice([505, 509, 510, 511, 512, 513, 1019, 1022, 1023, 1024, 1025, 1531, 1535, 1536, 2047, 2048])})
     for i in range(rng.randint(0, nmax)):
         name = rng.choice(["v%d", "my_var%d", "buf_%d", "_d%d", "Arr%d_x"]) % i
         t = rng.choice(["byte", "half", "word", "string", "zero"])
